@@ -304,6 +304,15 @@ theorem solve_sound {b : Band F} (h : WFb b) {rhs x : Array F} (hs : solve b rhs
       ∑ j ∈ Finset.range b.n, dense b i j * x[j]?.getD 0 = rhs[i]?.getD 0 :=
   Band.solve_sound h hs
 
+/-- (E) a non-zero computed determinant guarantees that `solve` succeeds, and the result solves
+    the dense system: the hypothesis of `solve_sound` holds for every such matrix -/
+theorem solve_complete {b : Band F} (h : WFb b) {rhs : Array F} (hr : rhs.size = b.n) {δ : F}
+    (hd : det b = .ok δ) (hδ : δ ≠ 0) :
+    ∃ x, solve b rhs = .ok x ∧ x.size = b.n ∧ ∀ i, i < b.n →
+      ∑ j ∈ Finset.range b.n, dense b i j * x[j]?.getD 0 = rhs[i]?.getD 0 := by
+  obtain ⟨x, hx, _⟩ := Band.solve_complete h hr hd hδ
+  exact ⟨x, hx, Band.solve_sound h hx⟩
+
 /-- (E) over a field `decompose` never fails when `m1 ≤ n` (a zero pivot only suppresses the
     elimination of that column) -/
 theorem decompose_total {b : Band F} (h : WFb b) (hm : b.m1 ≤ b.n) :
